@@ -41,6 +41,8 @@ type Config struct {
 	Strategy string `json:"strategy"`
 	StickyP  int    `json:"sticky_p"`
 	PCTDepth int    `json:"pct_depth"`
+	// TargetSite (strategy "target"): the site in front of which other tasks are preferred.
+	TargetSite int `json:"target_site,omitempty"`
 	// ColdQueueLocks: lock operations on sites marked cold by the rewriter
 	// (PacketQueue's private mutex) are not scheduling points.
 	ColdQueueLocks bool `json:"cold_queue_locks"`
@@ -405,6 +407,24 @@ func (s *Sim) pick(cands []*Task, nev int) int {
 		return 0
 	}
 	switch s.cfg.Strategy {
+	case "target":
+		// uniform walk, but a task that stands at the target site is held back (three times out of four) while
+		// anything else can run: whatever the others were about to do lands right in front of that operation
+		at := false
+		for _, t := range cands {
+			if t.req.site == s.cfg.TargetSite && s.cfg.TargetSite != 0 {
+				at = true
+			}
+		}
+		return s.choose(n, func(i int) int {
+			if at && i < len(cands) && cands[i].req.site == s.cfg.TargetSite {
+				return 1
+			}
+			if at {
+				return 3
+			}
+			return 1
+		})
 	case "sticky":
 		// keep the last task with probability 1-p
 		idx := -1
